@@ -43,15 +43,19 @@ SlotOK(s, p, k) ==
   /\ IF sl.many THEN k >= lk ELSE k > lk
   /\ sl.decl = "Import" => s[p].file = 1 /\ Cardinality(KidsOfShape(s, p)) < MaxFiles - 1
 Obj(kd, p, sl, f, h, nr) == [kind |-> kd, parent |-> p, slot |-> sl, file |-> f, hdr |-> h, nref |-> nr]
+TotalRefs(s) == LET RECURSIVE Sum(_)
+                    Sum(i) == IF i = 0 THEN 0 ELSE s[i].nref + Sum(i - 1)
+                IN Sum(Len(s))
 \* everything below is built as sequences without duplicates (a TLC set of large
 \* records costs a quadratic number of comparisons to build)
 Flat(ss) == FoldLeft(LAMBDA a, b : a \o b, <<>>, ss)
 Ext(s) ==
   LET f == NumFiles(s)
+      left == MaxRefs - TotalRefs(s)
       ps == SetToSeq(PathUp(s, Len(s)))
       forSlot(p, k) == LET kds == SetToSeq(Allowed(CarrierMeta[s[p].kind][k].decl)) IN
                        Cat([a \in 1..Len(kds) |->
-                              LET nrs == SetToSeq(NrefChoices(kds[a])) IN
+                              LET nrs == SetToSeq({nr \in NrefChoices(kds[a]) : nr <= left}) IN
                               [b \in 1..Len(nrs) |->
                                  Append(s, Obj(kds[a], p, CarrierMeta[s[p].kind][k].name, f, TRUE, nrs[b]))]])
       forParent(p) == Cat([k \in 1..Len(CarrierMeta[s[p].kind]) |->
@@ -62,9 +66,6 @@ Ext(s) ==
 RECURSIVE ShapesOf(_)
 ShapesOf(n) == IF n = 1 THEN <<<<Obj("Model", 0, "", 1, TRUE, 0)>>, <<Obj("Model", 0, "", 1, FALSE, 0)>>>>
                ELSE LET prev == ShapesOf(n - 1) IN Flat([i \in 1..Len(prev) |-> Ext(prev[i])])
-TotalRefs(s) == LET RECURSIVE Sum(_)
-                    Sum(i) == IF i = 0 THEN 0 ELSE s[i].nref + Sum(i - 1)
-                IN Sum(Len(s))
 \* definitions a reference written in file f can name: its own file, and from
 \* the main file also the imported ones
 Visible(s, f) == {t \in 1..Len(s) : s[t].kind \in DefKinds /\ (s[t].file = f \/ f = 1)}
